@@ -1,3 +1,4 @@
+import Rp2.Proofs.ComputeYearly
 import Rp2.Props.Tables.Loops
 import Rp2.Proofs.ComputeWindow
 import Rp2.Proofs.PropsA
@@ -46,4 +47,39 @@ theorem source_iterator_is_window {α : Type} (day utcDay : α → Int) (fromD t
     drain (Gen.L.iterNext day utcDay fromD toD) (l.length + 1) l = viewOf day (some fromD) (some toD) l :=
   Tables.iterator_is_window day utcDay fromD toD l (l.length + 1) (by omega)
 
+
+/-- **yearly summary lines cover whole years starting with the from-date's year** (on the `compute` model = ComputedData): a line is reported
+    exactly for the keys of the fractions dated up to the to-date — whether or not the from-date hides them — whose year is not before the
+    from-date's year; the from-date's day within its year plays no role. -/
+theorem model_yearly_lines_of_window (asset : String) (acctName : Nat → String) (period : Int) (allowNeg : Bool) (fromD toD : Option Int)
+    (sched : List (Int × Method)) (ins : List InTx) (outs : List OutTx) (intras : List IntraTx) (cd : Computed)
+    (h : compute asset acctName period allowNeg fromD toD sched ins outs intras = .ok cd) (line : YKey × YSums) :
+    ∃ fs, computeFractions sched ins outs intras = .ok fs ∧
+      (line ∈ cd.yearly ↔ line ∈ yearly period (cutAt (fun f : Fraction => f.ev.ts.day) toD fs) ∧
+        (match fromYearOf fromD with | none => True | some y => y ≤ line.1.year)) :=
+  compute_yearly_mem asset acctName period allowNeg fromD toD sched ins outs intras cd h line
+/-- two from-dates in the same calendar year give the same yearly lines (same figures, same order) -/
+theorem model_yearly_lines_depend_on_from_year_only (asset : String) (acctName : Nat → String) (period : Int) (allowNeg : Bool) (d1 d2 : Int)
+    (toD : Option Int) (sched : List (Int × Method)) (ins : List InTx) (outs : List OutTx) (intras : List IntraTx) (cd1 cd2 : Computed)
+    (h1 : compute asset acctName period allowNeg (some d1) toD sched ins outs intras = .ok cd1)
+    (h2 : compute asset acctName period allowNeg (some d2) toD sched ins outs intras = .ok cd2)
+    (hy : (civilFromDays d1).1 = (civilFromDays d2).1) : cd1.yearly = cd2.yearly :=
+  compute_yearly_same_year asset acctName period allowNeg d1 d2 toD sched ins outs intras cd1 cd2 h1 h2 hy
+/-- non-vacuity of the year hypothesis: 15 November 2021 and 1 January 2021 (days since the epoch) lie in the same civil year -/
+example : (civilFromDays 18946).1 = (civilFromDays 18628).1 := by decide
+
+/-- **the transaction tables of a windowed run are what the iterator translated from the source yields** over the time-sorted tables: the
+    In-, Out- and Intra-Flow rows of `compute` (= ComputedData) for a window [from, to] -/
+theorem source_iterator_yields_the_reported_tables (asset : String) (acctName : Nat → String) (period : Int) (allowNeg : Bool) (fromD toD : Int)
+    (sched : List (Int × Method)) (ins : List InTx) (outs : List OutTx) (intras : List IntraTx) (cd : Computed) (utcDay : {α : Type} → α → Int)
+    (h : compute asset acctName period allowNeg (some fromD) (some toD) sched ins outs intras = .ok cd) :
+    cd.ins = drain (Gen.L.iterNext (·.ts.day) utcDay fromD toD) (ins.length + 1) (sortByTs (·.ts.us) ins) ∧
+    cd.outs = drain (Gen.L.iterNext (·.ts.day) utcDay fromD toD) (outs.length + 1) (sortByTs (·.ts.us) outs) ∧
+    cd.intras = drain (Gen.L.iterNext (·.ts.day) utcDay fromD toD) (intras.length + 1) (sortByTs (·.ts.us) intras) := by
+  obtain ⟨h1, h2, h3⟩ := compute_views asset acctName period allowNeg (some fromD) (some toD) sched ins outs intras cd h
+  have len : ∀ {α : Type} (ts : α → Int) (l : List α), (sortByTs ts l).length = l.length := fun ts l => by unfold sortByTs; simp
+  refine ⟨?_, ?_, ?_⟩
+  · rw [h1, Tables.iterator_is_window _ _ _ _ _ _ (by rw [len]; omega)]
+  · rw [h2, Tables.iterator_is_window _ _ _ _ _ _ (by rw [len]; omega)]
+  · rw [h3, Tables.iterator_is_window _ _ _ _ _ _ (by rw [len]; omega)]
 end Rp2.C10
